@@ -43,8 +43,46 @@ def _cfg(ctx, rel):
     return c[0]
 
 
+def _unit_aware_functions(ctx):
+    """The functions of numerical expressions are applied to the quantity, not to its bare number: `sin(30 deg)` is
+    0.5 because Quantity's NumPy hook converts an angle to radians and refuses a length, `sqrt(4 m2)` is 2 m.  The term
+    each function operator of the numerical solver hands back is read (as in C01.R6) and compared with the unit-aware
+    form; an argument stripped with `.value()` (no unit asked for) in front of the function is the violation."""
+    num = _cfg(ctx, NS)
+    WANT = {"sin": "np.sin(A0)", "cos": "np.cos(A0)", "tan": "np.tan(A0)", "sqrt": "np.sqrt(A0)", "log": "np.log(A0)", "log10": "np.log10(A0)",
+            "logb": "(np.log(A0) / np.log(A1))"}
+    n = 0
+    for name, want in WANT.items():
+        cref = num.operators.get(name)
+        if cref is None:
+            continue
+        r = ctx.repo.method(cref.module, cref.node, "operate_args")
+        if r is None:
+            continue
+        m, c, fn = r
+        if m.relpath != NS:
+            continue   # inherited from the generic solver: decided by C01.R6
+        ctx.functions_analysed.add(f"{m.relpath}::{c.name}.operate_args")
+        what = f"numerical function {name}( is applied to the quantity with its unit"
+        term = K.args_handler_term(fn)
+        if term is None:
+            raw = K._single_put_left(fn)
+            term = norm(raw).replace("self.args[0]", "A0").replace("self.args[1]", "A1") if raw is not None else None
+        n += 1
+        if term is None:
+            ctx.unrecognised(NS, f"{c.name}.operate_args", what, "not a single put_left(<term>)")
+        elif term == want:
+            ctx.holds(NS, f"{c.name}.operate_args", what, detail=term)
+        elif "A0.value()" in term.replace(" ", "") or ".magnitude" in term:
+            ctx.violated(NS, f"{c.name}.operate_args", what, detail=term, expected=want)
+        else:
+            ctx.unrecognised(NS, f"{c.name}.operate_args", what, f"term {term[:80]}")
+    ctx.floor("unit-aware function operators of the numerical solver", n, 6)
+
+
 def r1_configurations(ctx):
     from . import C01 as _C01
+    _unit_aware_functions(ctx)
     _C01.r8_parenthesis(ctx)        # function arguments are split at separators of the function's own depth only (shared with C01.R8)
     C01.r3_maximal_munch(ctx)
     C01.r4_handlers(ctx)
